@@ -811,6 +811,12 @@ class Compiler:
                     raise self._syntax_error(node, "'continue' outside of loop")
                 raise self._syntax_error(node, f"label '{target_label}' not found")
 
+            if not ctx.is_loop:
+                # `continue L` where L labels a statement that is not a loop
+                raise self._syntax_error(
+                    node, f"label '{target_label}' does not denote a loop"
+                )
+
             # Leave everything nested inside the target: operands, handlers, finally blocks
             self._emit_exit_cleanup(self.loop_stack.index(ctx))
 
